@@ -1,0 +1,13 @@
+//go:build verif
+
+package gcsemu
+
+// VerifYield, when set, is called at named points inside the file store where a
+// multi-step publication is half done (only with the "verif" build tag).
+var VerifYield func(point string)
+
+func verifYield(point string) {
+	if f := VerifYield; f != nil {
+		f(point)
+	}
+}
